@@ -52,19 +52,19 @@ def streamSkip (data : Bytes) (pos : Nat) (want : Int) (atEOF : Int) : Nat × In
   else if (data.length - pos : Int) ≥ want then (pos + want.toNat, want)
   else (data.length, atEOF)
 
-/-- start (or restart) the streaming read: `Restore` runs in a goroutine that `panic`s on any
-    error other than a closed pipe -/
+/-- start (or restart) the streaming read: `Restore` runs in a goroutine that hands any error
+    other than a closed pipe to the reading side -/
 def startReader (f : FsCfg) (h : Handle) : M Handle := do
   match ← M.attempt (restoreContent f h.path) with
   | .ok data =>
     match ← fetchedHeader f h.path with
     | some hd =>
       if hd.typeflag == tfDir then M.wedge .stuck
-      else if f.c.emptyDecodeFails && hd.size == 0 && (hd.pax.get Gen.recSTFSRecordUncompressedSize).isNone then M.fail .crash
+      else if f.c.emptyDecodeFails && hd.size == 0 && (hd.pax.get Gen.recSTFSRecordUncompressedSize).isNone then M.fail .other
       else pure { h with reader := some (data, 0) }
     | none => pure { h with reader := some (data, 0) }
   | .error .stuck => M.fail .stuck
-  | .error _ => M.fail .crash
+  | .error _ => M.fail .other
 
 /-- `File.Read(p)` with `len(p) = n`: bytes, and whether `io.EOF` came with them -/
 def hRead (f : FsCfg) (h : Handle) (n : Nat) : M (Handle × Bytes × Bool) := do
